@@ -251,12 +251,8 @@ func (d *DFA) SearchAtAnchored(cache *DFACache, haystack []byte, at int) int {
 	for pos := at; pos < len(haystack); pos++ {
 		b := haystack[pos]
 
-		if d.hasWordBoundary {
-			st := cache.getState(sid)
-			if st != nil && st.checkWordBoundaryFast(b) {
-				return pos
-			}
-		}
+		// A match behind \b/\B is reported by determinize through the 1-byte match
+		// delay; returning here would cut off higher-priority (longer) continuations.
 
 		classIdx := int(d.byteToClass(b))
 		offset := sid.Offset() + classIdx
@@ -964,12 +960,8 @@ func (d *DFA) findWithPrefilterAt(cache *DFACache, haystack []byte, startAt int)
 			}
 		}
 
-		if d.hasWordBoundary {
-			st := cache.getState(sid)
-			if st != nil && d.checkWordBoundaryMatch(st, haystack[pos]) {
-				return pos
-			}
-		}
+		// A match behind \b/\B is reported by determinize through the 1-byte match
+		// delay; returning here would cut off higher-priority (longer) continuations.
 
 		classIdx := int(d.byteToClass(haystack[pos]))
 		offset := sid.Offset() + classIdx
@@ -1260,9 +1252,8 @@ func (d *DFA) searchAt(cache *DFACache, haystack []byte, startPos int) int { //n
 
 		b := haystack[pos]
 
-		if d.hasWordBoundary && d.checkWordBoundaryMatch(currentState, b) {
-			return pos
-		}
+		// A match behind \b/\B is reported by determinize through the 1-byte match
+		// delay; returning here would cut off higher-priority (longer) continuations.
 
 		// Flat table lookup for transition
 		classIdx := int(d.byteToClass(b))
@@ -1349,8 +1340,23 @@ func (d *DFA) determinize(cache *DFACache, current *State, b byte) (*State, erro
 	// This re-runs epsilon closure on the current state's NFA IDs with the
 	// new look-ahead, potentially adding Match states behind $ assertions.
 	currentNFAStates := current.NFAStates()
+	lookAhead := LookNone
 	if d.hasEndLine && b == '\n' {
-		currentNFAStates = builder.epsilonClosure(currentNFAStates, LookEndLine)
+		lookAhead |= LookEndLine
+	}
+	// Word boundaries are look-ahead too: \b / \B pending in the current state are
+	// decided by (isFromWord, b). Resolving them here (in priority order) lets a
+	// Match behind \b/\B use the same 1-byte match delay and break-at-match logic
+	// as every other match instead of being reported out of priority order.
+	if d.hasWordBoundary {
+		if current.IsFromWord() != isWordByte(b) {
+			lookAhead |= LookWordBoundary
+		} else {
+			lookAhead |= LookNoWordBoundary
+		}
+	}
+	if lookAhead != LookNone {
+		currentNFAStates = builder.epsilonClosure(currentNFAStates, lookAhead)
 	}
 
 	// 1-byte match delay (Rust determinize mod.rs:254-286):
